@@ -3,6 +3,10 @@
 package farm
 
 import (
+	"github.com/cosmos/cosmos-sdk/codec"
+
+	"encoding/json"
+
 	"bytes"
 	"fmt"
 	"math/big"
@@ -40,6 +44,9 @@ type Variant struct {
 	// OtherPools creates that many further long-lived pools (farm-2 ...) by another creator after the pool under
 	// test; with 9 of them the tenth pool's id "farm-10" has the id of the pool under test as a proper prefix
 	OtherPools int
+	// OddFee: the chain's genesis sets the pool-creation fee to 5001 (x tax rate 0.4 = 2000.4: the community
+	// share has a fraction, so the fee does not split evenly as the default 5000 does)
+	OddFee bool
 }
 
 type model struct {
@@ -214,7 +221,18 @@ func New(v Variant) func() (*mc.Env, mc.Driver) {
 		if v.OtherPools > 0 {
 			bal["K2"] = sdk.NewCoins(mc.CI("stake", big130), mc.CI("btc", big130), mc.CI("eth", big130))
 		}
-		e := mc.NewEnv(mc.EnvOptions{Balances: bal, InitialHeight: v.InitialHeight})
+		opts := mc.EnvOptions{Balances: bal, InitialHeight: v.InitialHeight}
+		if v.OddFee {
+			opts.GenesisMutators = map[string]func(cdc codec.Codec, raw json.RawMessage) json.RawMessage{
+				farmtypes.ModuleName: func(cdc codec.Codec, raw json.RawMessage) json.RawMessage {
+					var g farmtypes.GenesisState
+					cdc.MustUnmarshalJSON(raw, &g)
+					g.Params.PoolCreationFee = sdk.NewCoin(g.Params.PoolCreationFee.Denom, sdkmath.NewInt(5001))
+					return cdc.MustMarshalJSON(&g)
+				},
+			}
+		}
+		e := mc.NewEnv(opts)
 		return e, &Driver{V: v}
 	}
 }
@@ -697,6 +715,17 @@ func (d *Driver) check(e *mc.Env, s *mc.State) []mc.Finding {
 		for _, dn := range d.rewardDenoms() {
 			if got := e.Bal(s.Ctx, farmAcc, dn).Sub(others.AmountOf(dn)); !got.Equal(pool.RemainingReward.AmountOf(dn)) {
 				fs = append(fs, mc.F("C05/escrow-differs/reward-budget", "farm account holds %s %s, remaining budget %s", got, dn, pool.RemainingReward.AmountOf(dn)))
+			}
+		}
+		// ... and nothing else: "exactly" covers every denomination the account holds (a creation fee passes
+		// through this account; none of it may stay)
+		known := map[string]bool{lpt: true}
+		for _, dn := range d.rewardDenoms() {
+			known[dn] = true
+		}
+		for _, c := range e.AllBal(s.Ctx, farmAcc) {
+			if !known[c.Denom] && !c.Amount.Equal(others.AmountOf(c.Denom)) {
+				fs = append(fs, mc.F("C05/escrow-differs/other-denomination", "farm account holds %s, which is neither staked token nor reward budget of any pool (pools account for %s)", c, others.AmountOf(c.Denom)))
 			}
 		}
 		// epilogue: everybody withdraws everything, in every order; each withdrawal must succeed and pay
